@@ -778,6 +778,14 @@ def make_instances(tree, seed, per=2):
 
 # ====================================================================================================== options and their relations
 NEWPFX = "zqx_"
+PROJ_OV, PKG_OV = "ZqBilling-SDKv2-x", "ZqPkgName2_X"     # upper case, camelCase, digit after letters: survive verbatim / up to `-` -> `_`
+
+
+def documented_names(cfg, default_project):
+    """README: project name = project_name_override (else the default); package name = package_name_override, else the project name
+    with every `-` replaced by `_` (nothing else). Computed WITHOUT the implementation's Project."""
+    project = cfg.get("project_name_override") or default_project
+    return project, (cfg.get("package_name_override") or project.replace("-", "_"))
 
 def opt_table(base_tree):
     """option name -> dict(cfg=..., meta=..., encoding=..., custom=..., doc=fn) describing the toggled setting"""
@@ -789,8 +797,8 @@ def opt_table(base_tree):
         ov[cn] = {"class_name": f"RenamedZq{i}Cls", "module_name": f"renamed_zq{i}_mod"}
     return {
         "class_overrides": {"cfg": {"class_overrides": ov}},
-        "project_name_override": {"cfg": {"project_name_override": "zq-proj-name"}},
-        "package_name_override": {"cfg": {"package_name_override": "zq_pkg_name"}},
+        "project_name_override": {"cfg": {"project_name_override": PROJ_OV}},
+        "package_name_override": {"cfg": {"package_name_override": PKG_OV}},
         "package_version_override": {"cfg": {"package_version_override": "9.8.7.dev77"}},
         "field_prefix": {"cfg": {"field_prefix": NEWPFX}},
         "use_path_prefixes_for_title_model_names": {"cfg": {"use_path_prefixes_for_title_model_names": False}},
@@ -913,10 +921,22 @@ def relation(opt, doc, base, var, ctx):
         d = first_diff(B, Vm)
         if d:
             fail(opt + " changed something other than the project/package name in the metadata files and the package directory name", d)
-        if opt == "package_name_override" and var.pkg != "zq_pkg_name":
-            fail("package_name_override not applied", var.pkg)
-        if opt == "project_name_override" and var.project != "zq-proj-name":
-            fail("project_name_override not applied", var.project)
+        vcfg = {"project_name_override": var.config.project_name_override, "package_name_override": var.config.package_name_override}
+        exp_project, exp_pkg = documented_names(vcfg, ctx["default_project"])
+        if var.project != exp_project or var.pkg != exp_pkg:
+            fail("project / package name is not the documented one (override verbatim; package = project with '-' -> '_')",
+                 {"expected": [exp_project, exp_pkg], "got": [var.project, var.pkg]})
+        if var.meta != "none":
+            stray = [k for k in V if "/" in k and not k.startswith(exp_pkg + "/")]
+            if stray:
+                fail("package directory is not named after the documented package name", {"expected": exp_pkg, "found": stray[0]})
+            for fn, pat in (("pyproject.toml", 'name = "%s"' % exp_project), ("setup.py", 'name="%s"' % exp_project), ("README.md", "# " + exp_project),
+                            ("README.md", "from %s import Client" % exp_pkg)):
+                if fn in V and pat not in V[fn]:
+                    fail("metadata file does not carry the documented name", {"file": fn, "expected_text": pat})
+            if var.meta == "poetry" and '{include = "%s"}' % exp_pkg not in V.get("pyproject.toml", ""):
+                fail("pyproject.toml include entry is not the documented package name", {"expected": exp_pkg})
+        wire = ([], False)
     elif opt == "meta":
         # package subtree identical across flavours
         own = ("py.typed", "ZQ_HOOK_MARK")     # the marker, and the file a post hook of the context drops into the project directory
@@ -1124,7 +1144,7 @@ def relation(opt, doc, base, var, ctx):
 SINGLES = ["class_overrides", "project_name_override", "package_name_override", "package_version_override", "field_prefix",
            "use_path_prefixes_for_title_model_names", "literal_enums", "docstrings_on_attributes", "generate_all_tags", "content_type_overrides",
            "post_hooks", "meta", "file_encoding", "custom_template_path", "http_timeout"]
-WIRE_OPTS = {"class_overrides", "field_prefix", "use_path_prefixes_for_title_model_names", "literal_enums", "docstrings_on_attributes", "content_type_overrides"}
+WIRE_OPTS = {"project_name_override", "package_name_override", "class_overrides", "field_prefix", "use_path_prefixes_for_title_model_names", "literal_enums", "docstrings_on_attributes", "content_type_overrides"}
 
 
 def ctype_target_doc(doc):
@@ -1145,6 +1165,7 @@ def work(args):
             base0.close()
             return out
         table = opt_table(base0)
+        default_project = base0.project      # no override: kebab-case title + "-client" (Names.kebab_case, checked by C09/C19 and stage B here)
         overrides = table["class_overrides"]["cfg"]["class_overrides"]
         instances = make_instances(base0, seed)
         ab0 = absprop.Abs(base0.data)
@@ -1197,7 +1218,7 @@ def work(args):
                     v = get_tree(ctxopts + [opt], fl)
                 else:
                     v = get_tree(ctxopts + [opt], ctx_fl)
-                ctx = {"instances": instances, "overrides": overrides, "int_enum_model": int_enum_model, "wire_cache": wire_cache, "base_syntax_bad": base_syntax_bad, "has_errors": has_errors,
+                ctx = {"instances": instances, "overrides": overrides, "int_enum_model": int_enum_model, "default_project": default_project, "wire_cache": wire_cache, "base_syntax_bad": base_syntax_bad, "has_errors": has_errors,
                        "wire": opt in WIRE_OPTS and (not ctxopts or budget[0] > 0) and b.encoding == "utf-8" and v.encoding == "utf-8"}
                 if opt == "content_type_overrides":
                     ctx["ctype_target_tree"] = get_tree(ctxopts, ctx_fl, target=True)
